@@ -60,13 +60,13 @@ var Check = &run.Check{
 	ID:    "C18",
 	Level: "exploration",
 	Rule: "case index mod 15 selects the sub-check. 0-9: synthetic call model (modelgen: random/dag/tree/chain/cycle/fan-in/mutual/dense graphs with repeated calls, self calls, calls without receiver type, " +
-		"calls to external and to undeclared methods of project classes, object creations; in every second model call records carry real-looking positions: one caller calls the SAME callee 2-3 times on ONE line at different columns, adjacent or with another call in between) -> count.BuildCallMap, every Nth through `coca count -d deps.json` twice (+ `-t k`). " +
-		"10-11: generated Java project (1-6 files, one class each: *Util/*Utils classes with static methods only, also named *ServiceUtil(s)/ServiceUtils/WebServiceUtil, *Service classes, ordinary and abstract classes; methods with every subset of " +
+		"calls to external and to undeclared methods of project classes, object creations, classes in the default package (empty package name); in every second model call records carry real-looking positions: one caller calls the SAME callee 2-3 times on ONE line at different columns, adjacent or with another call in between) -> count.BuildCallMap, every Nth through `coca count -d deps.json` twice (+ `-t k`). " +
+		"10-11: generated Java project (1-6 files, one class each: *Util/*Utils classes with static methods only, also named *ServiceUtil(s)/ServiceUtils/WebServiceUtil, *Service classes, ordinary and abstract classes; about one class in seven has no package line; methods with every subset of " +
 		"{public|private|protected, static, final, synchronized} or {public|protected, abstract} in random order, annotations before or between the keywords; bodies returning null as the only/first/middle/last return " +
 		"statement, nested in for/while/try/switch/else; @Nullable/@CheckForNull as only/first/middle/last annotation or after a keyword; both annotations on one method; annotation plus return null; null returned on two paths; decoys: null outside return statements, @Nonnull, boolean `return p == null`; " +
 		"bodies start with unqualified calls of same-class methods, one per line or the same callee 2-3 times on one line) " +
 		"-> JavaIdentifierApp + JavaFullApp -> evaluate.Analyser.Analysis, every Nth through `coca analysis -p DIR` + `coca evaluate` (coca_reporter/evaluate.json); the analysed model of every project also goes through count.BuildCallMap / `coca count` and is compared with its own recorded call entries. " +
-		"12-14: classes whose method names are plain camel case over 40 ordinary words, 12 English function words and digit groups -> concept.ConceptAnalyser.Analysis, every Nth through `coca concept -d deps.json`. " +
+		"12-14: classes whose method names are plain camel case over 40 ordinary words, 6 ordinary words that begin with get/set (setup, setback, settle, getaway, settings, getter; alone, first or later segment), 12 English function words and digit groups -> concept.ConceptAnalyser.Analysis, every Nth through `coca concept -d deps.json`. " +
 		"non-trivial = model: some declared method has >= 2 call sites and some call goes to an undeclared name; project: >= 2 classes, a static method with >= 2 modifiers and a nullable method; " +
 		"names: >= 3 words of which one is a stop word; distinct = hash of (kind, structure without names)",
 	Assumptions: []string{
@@ -76,6 +76,7 @@ var Check = &run.Check{
 		"return expressions never contain an identifier or string with the letters 'null'; ternaries with a null branch are not generated",
 		"for generated projects the expected reference counts are the call entries the full pass RECORDED (which receiver a call resolves to is C02's subject); the planted same-line calls are only counted to show that such entries occur",
 		"a class named *ServiceUtil(s) with nothing but static methods is a utility class under any reading; a *Service class without 'util' in its name is not",
+		"full names of default-package members are compared without the leading dot coca writes (.Greeter.greet == Greeter.greet): the statement only needs caller side and declaring side to agree",
 		"the key format of the nullable list and of the count map (package.Class.method) is read from the code, the statement does not fix it",
 		"word lists: only words that are in neither of coca's stop-word lists count as words, only English function words (the, of, and, for, with, to, in, by, from, or, on, at) are planted as stop words; only the SUM of the reported counts is asserted",
 		"`coca count -t k` is run with k in 1..rows+2; nothing is asserted about which or how many rows it keeps beyond: it does not crash, every row is a correct pair, both runs print the same",
@@ -149,12 +150,12 @@ func parseTable(out string) (header []string, rows [][]string) {
 
 func runModel(c *run.Ctx, o *run.Outcome, seq int) {
 	r := c.Rng
-	opts := modelgen.Opts{MaxClasses: 8, MaxMethods: 40, MaxOut: 6, Quotes: true}
+	opts := modelgen.Opts{MaxClasses: 8, MaxMethods: 40, MaxOut: 6, Quotes: true, DefaultPkg: true}
 	if r.Chance(1, 2) {
-		opts = modelgen.Opts{MaxClasses: 3, MaxMethods: 8, MaxOut: 4, Quotes: false}
+		opts = modelgen.Opts{MaxClasses: 3, MaxMethods: 8, MaxOut: 4, Quotes: false, DefaultPkg: true}
 	}
 	if seq < 20 {
-		opts = modelgen.Opts{MaxClasses: 2, MaxMethods: 4, MaxOut: 3, Quotes: false}
+		opts = modelgen.Opts{MaxClasses: 2, MaxMethods: 4, MaxOut: 3, Quotes: false, DefaultPkg: true}
 	}
 	m := modelgen.Generate(r.Fork(), opts)
 	sameLineGroups, sameLineSites := 0, 0
@@ -197,6 +198,17 @@ func runModel(c *run.Ctx, o *run.Outcome, seq int) {
 	o.Count("model_call_sites_to_undeclared_names", toUndeclared)
 	o.Count("model_call_sites_without_receiver", noReceiver)
 	o.Count("model_object_creations", creations)
+	for _, cl := range m.Classes {
+		if cl.Pkg == "" {
+			o.Count("model_classes_in_default_package", 1)
+		}
+	}
+	for k, n := range want {
+		if strings.HasPrefix(k, ".") {
+			o.Count("model_called_methods_of_default_package_classes", 1)
+			o.Count("model_call_sites_resolving_to_default_package_methods", n)
+		}
+	}
 	o.Count("model_same_callee_same_line_groups", sameLineGroups)
 	o.Count("model_call_sites_in_same_line_groups", sameLineSites)
 	if sameLineGroups > 0 {
@@ -267,8 +279,12 @@ func runModel(c *run.Ctx, o *run.Outcome, seq int) {
 				tops = append(tops, rows)
 			}
 			o.Count("cli_count_top_runs", 1)
+			wantN := map[string]int{}
+			for k2, v := range want {
+				wantN[oracle.EvalNormKey(k2)] = v
+			}
 			for _, row := range tops[0] {
-				if want[row.Key] != row.Value {
+				if wantN[oracle.EvalNormKey(row.Key)] != row.Value {
 					o.Violate("cli-count-top-row-wrong", "`coca count -t %d` prints %q: %d, the model gives %d", k, row.Key, row.Value, want[row.Key])
 				}
 			}
@@ -392,10 +408,10 @@ func runCount(c *run.Ctx, o *run.Outcome, dir string, args ...string) ([]oracle.
 
 func runProject(c *run.Ctx, o *run.Outcome, seq int) {
 	r := c.Rng
-	opts := evalgen.Opts{MaxClasses: 6, MaxMethods: 7, NullCompare: true}
+	opts := evalgen.Opts{MaxClasses: 6, MaxMethods: 7, NullCompare: true, DefaultPkg: true}
 	if seq < 16 || seq%4 == 0 {
 		// small cases give small witnesses: the first violating case of a signature is the one recorded
-		opts = evalgen.Opts{MaxClasses: 1, MaxMethods: 2, NullCompare: true}
+		opts = evalgen.Opts{MaxClasses: 1, MaxMethods: 2, NullCompare: true, DefaultPkg: true}
 	}
 	p := evalgen.Generate(r.Fork(), opts)
 	if err := evalgen.SelfCheck(p); err != nil {
@@ -450,6 +466,14 @@ func runProject(c *run.Ctx, o *run.Outcome, seq int) {
 		}
 		shape = append(shape, s+")")
 		o.Count("project_classes_"+cl.Kind, 1)
+		if cl.Pkg == "" {
+			o.Count("project_classes_without_package_line", 1)
+			for _, m := range cl.Methods {
+				if m.Nullable() {
+					o.Count("project_nullable_methods_in_default_package", 1)
+				}
+			}
+		}
 		if cl.Kind == evalgen.KindUtil && strings.Contains(strings.ToLower(cl.Name), "service") {
 			o.Count("project_classes_util_named_service_too", 1)
 		}
@@ -558,10 +582,10 @@ func runProject(c *run.Ctx, o *run.Outcome, seq int) {
 	o.Count("project_nullable_methods_observed", len(got.Nullable))
 	inWant := map[string]bool{}
 	for _, n := range want.Nullable {
-		inWant[n] = true
+		inWant[oracle.EvalNormKey(n)] = true
 	}
 	for _, n := range got.Nullable {
-		if inWant[n] {
+		if inWant[oracle.EvalNormKey(n)] {
 			o.Count("project_nullable_methods_matched", 1)
 		}
 	}
@@ -699,8 +723,17 @@ func runConcept(c *run.Ctx, o *run.Outcome, seq int) {
 		ds := core_domain.CodeDataStruct{NodeName: cl.Name, Package: cl.Pkg, Type: "Class", FilePath: cl.Pkg + "/" + cl.Name + ".java"}
 		for _, m := range cl.Methods {
 			ds.Functions = append(ds.Functions, core_domain.CodeFunction{Name: m.Name, ReturnType: "void"})
+			if m.Words[0].Lookalike {
+				o.Count("concept_names_whose_first_word_begins_with_get_or_set", 1)
+				if len(m.Words) == 1 {
+					o.Count("concept_names_that_are_one_such_word", 1)
+				}
+			}
 			s := ""
 			for _, w := range m.Words {
+				if w.Lookalike {
+					o.Count("concept_words_beginning_with_get_or_set", 1)
+				}
 				switch {
 				case w.Digit:
 					s += "d"
